@@ -11,6 +11,12 @@ fn items<I: IntoIterator<Item = u64>>(l: I) -> String {
     format!("items:[{}]", show_nats(l))
 }
 
+fn exhausted<N: ArrayLength>() -> ga_harness::generic_array::GenericArrayIter<u64, N> {
+    let mut e = GenericArray::<u64, N>::default().into_iter();
+    while e.next().is_some() {}
+    e
+}
+
 fn run<N: ArrayLength>(n: usize, ops: &[&str]) -> String {
     let arr: GenericArray<u64, N> = (0..n as u64).map(|i| i + 10).collect();
     let base = arr.as_ptr() as usize;
@@ -86,6 +92,38 @@ fn run<N: ArrayLength>(n: usize, ops: &[&str]) -> String {
                     acc
                 });
                 (items(v), items(dq.iter().rev().copied()))
+            }
+            "fold!" => {
+                let old = std::mem::replace(&mut it, exhausted::<N>());
+                let v = old.fold(Vec::new(), |mut acc, x| {
+                    acc.push(x);
+                    acc
+                });
+                let w = items(dq.iter().copied());
+                dq.clear();
+                (items(v), w)
+            }
+            "rfold!" => {
+                let old = std::mem::replace(&mut it, exhausted::<N>());
+                let v = old.rfold(Vec::new(), |mut acc, x| {
+                    acc.push(x);
+                    acc
+                });
+                let w = items(dq.iter().rev().copied());
+                dq.clear();
+                (items(v), w)
+            }
+            "count!" => {
+                let old = std::mem::replace(&mut it, exhausted::<N>());
+                let w = format!("num:{}", dq.len());
+                dq.clear();
+                (format!("num:{}", old.count()), w)
+            }
+            "last!" => {
+                let old = std::mem::replace(&mut it, exhausted::<N>());
+                let w = item(dq.back().copied());
+                dq.clear();
+                (item(old.last()), w)
             }
             "count" => (format!("num:{}", it.clone().count()), format!("num:{}", dq.len())),
             "last" => (item(it.clone().last()), item(dq.back().copied())),
